@@ -42,7 +42,7 @@ class C03(ParseProp):
                 build.append(['le', r.choice(['lf', 'cr', 'crlf'])])
             ops = []
             for _ in range(3 + r.below(8)):
-                ops.append(r.choice(['next', 'next', 'next', 'peek', 'sublex', ['advupto', 'Comma'], ['clone', 'next', 'peek']]))
+                ops.append(r.choice(['next', 'next', 'next', 'peek', 'sublex', 'emptyf', ['advupto', 'Comma'], ['clone', 'next', 'peek']]))
             n += 1
             out.append(parsegen.lex_case('c%d' % n, r.choice(['plain', 'counting', 'literal', 'literal', 'matching']), t, build, ops + ['drain']))
         return out
